@@ -1,6 +1,13 @@
-(* C14: audited obligations. (a) rejected calls: ladders vs documented preconditions; (b) the modelled guards.
-   Each statement is literally the statement of the lemma named after it (coq/Except/Precond.v, AllocProgs.v). *)
+(* C14: audited obligations. Each statement is literally the statement of the lemma named after it
+   (coq/Except/Precond.v, coq/Except/AllocProgs.v).
+   (a) rejected calls: ladders vs documented preconditions.
+   (b) the modelled guards, for the code AS IT NOW IS (after /repo commits b69eb94 and 53a83c0): unwind_balanced / usable
+       after a failure at ANY fault position k.
+   (c) historical: theorems about the program text BEFORE those two commits (old_ prefix), kept because they are the
+       machine-checked root-cause analyses of the two repaired defects. *)
 Require Import PPLV.Except.Precond PPLV.Except.Alloc PPLV.Except.AllocProgs.
+
+(* (a) *)
 Theorem C14_precond_complete : ltac:(let t := type of precond_complete in exact t).
 Proof. exact precond_complete. Qed.
 Theorem C14_rejected_unchanged : ltac:(let t := type of rejected_unchanged in exact t).
@@ -21,32 +28,18 @@ Theorem C14_generalized_affine_image_accepted_defined : ltac:(let t := type of g
 Proof. exact generalized_affine_image_accepted_defined. Qed.
 Theorem C14_bounded_affine_image_accepted_defined : ltac:(let t := type of bounded_affine_image_accepted_defined in exact t).
 Proof. exact bounded_affine_image_accepted_defined. Qed.
+
+(* (b) current code *)
 Theorem C14_cotree_init_unwind_balanced : ltac:(let t := type of cotree_init_unwind_balanced in exact t).
 Proof. exact cotree_init_unwind_balanced. Qed.
-Theorem C14_cotree_init_usable_after_refuted : ltac:(let t := type of cotree_init_usable_after_refuted in exact t).
-Proof. exact cotree_init_usable_after_refuted. Qed.
-Theorem C14_cotree_init_fixed_unwind_balanced : ltac:(let t := type of cotree_init_fixed_unwind_balanced in exact t).
-Proof. exact cotree_init_fixed_unwind_balanced. Qed.
 Theorem C14_cotree_destroy_balanced : ltac:(let t := type of cotree_destroy_balanced in exact t).
 Proof. exact cotree_destroy_balanced. Qed.
-Theorem C14_cotree_iter_ctor_unwind_partial : ltac:(let t := type of cotree_iter_ctor_unwind_partial in exact t).
-Proof. exact cotree_iter_ctor_unwind_partial. Qed.
-Theorem C14_cotree_iter_ctor_leak_refuted : ltac:(let t := type of cotree_iter_ctor_leak_refuted in exact t).
-Proof. exact cotree_iter_ctor_leak_refuted. Qed.
-Theorem C14_cotree_iter_ctor_unwind_balanced_refuted : ltac:(let t := type of cotree_iter_ctor_unwind_balanced_refuted in exact t).
-Proof. exact cotree_iter_ctor_unwind_balanced_refuted. Qed.
-Theorem C14_cotree_iter_ctor_leaks_exactly : ltac:(let t := type of cotree_iter_ctor_leaks_exactly in exact t).
-Proof. exact cotree_iter_ctor_leaks_exactly. Qed.
-Theorem C14_cotree_iter_ctor_fixed_unwind_balanced : ltac:(let t := type of cotree_iter_ctor_fixed_unwind_balanced in exact t).
-Proof. exact cotree_iter_ctor_fixed_unwind_balanced. Qed.
+Theorem C14_cotree_iter_ctor_unwind_balanced : ltac:(let t := type of cotree_iter_ctor_unwind_balanced in exact t).
+Proof. exact cotree_iter_ctor_unwind_balanced. Qed.
 Theorem C14_cotree_copy_ctor_unwind_balanced : ltac:(let t := type of cotree_copy_ctor_unwind_balanced in exact t).
 Proof. exact cotree_copy_ctor_unwind_balanced. Qed.
-Theorem C14_cotree_assign_unwind_balanced_partial : ltac:(let t := type of cotree_assign_unwind_balanced_partial in exact t).
-Proof. exact cotree_assign_unwind_balanced_partial. Qed.
-Theorem C14_cotree_assign_usable_after_refuted : ltac:(let t := type of cotree_assign_usable_after_refuted in exact t).
-Proof. exact cotree_assign_usable_after_refuted. Qed.
-Theorem C14_cotree_assign_fixed_unwind_balanced : ltac:(let t := type of cotree_assign_fixed_unwind_balanced in exact t).
-Proof. exact cotree_assign_fixed_unwind_balanced. Qed.
+Theorem C14_cotree_assign_unwind_balanced : ltac:(let t := type of cotree_assign_unwind_balanced in exact t).
+Proof. exact cotree_assign_unwind_balanced. Qed.
 Theorem C14_cotree_rebuild_bigger_unwind_balanced : ltac:(let t := type of cotree_rebuild_bigger_unwind_balanced in exact t).
 Proof. exact cotree_rebuild_bigger_unwind_balanced. Qed.
 Theorem C14_dense_resize_unwind_balanced : ltac:(let t := type of dense_resize_unwind_balanced in exact t).
@@ -63,3 +56,21 @@ Theorem C14_pip_decision_copy_unwind_balanced : ltac:(let t := type of pip_decis
 Proof. exact pip_decision_copy_unwind_balanced. Qed.
 Theorem C14_pip_decision_copy_unguarded_refuted : ltac:(let t := type of pip_decision_copy_unguarded_refuted in exact t).
 Proof. exact pip_decision_copy_unguarded_refuted. Qed.
+
+(* (c) text before b69eb94 / 53a83c0 *)
+Theorem C14_old_cotree_iter_ctor_unwind_partial : ltac:(let t := type of old_cotree_iter_ctor_unwind_partial in exact t).
+Proof. exact old_cotree_iter_ctor_unwind_partial. Qed.
+Theorem C14_old_cotree_iter_ctor_leak_refuted : ltac:(let t := type of old_cotree_iter_ctor_leak_refuted in exact t).
+Proof. exact old_cotree_iter_ctor_leak_refuted. Qed.
+Theorem C14_old_cotree_iter_ctor_unwind_balanced_refuted : ltac:(let t := type of old_cotree_iter_ctor_unwind_balanced_refuted in exact t).
+Proof. exact old_cotree_iter_ctor_unwind_balanced_refuted. Qed.
+Theorem C14_old_cotree_iter_ctor_leaks_exactly : ltac:(let t := type of old_cotree_iter_ctor_leaks_exactly in exact t).
+Proof. exact old_cotree_iter_ctor_leaks_exactly. Qed.
+Theorem C14_old_cotree_init_unwind_balanced : ltac:(let t := type of old_cotree_init_unwind_balanced in exact t).
+Proof. exact old_cotree_init_unwind_balanced. Qed.
+Theorem C14_old_cotree_init_usable_after_refuted : ltac:(let t := type of old_cotree_init_usable_after_refuted in exact t).
+Proof. exact old_cotree_init_usable_after_refuted. Qed.
+Theorem C14_old_cotree_assign_unwind_balanced_partial : ltac:(let t := type of old_cotree_assign_unwind_balanced_partial in exact t).
+Proof. exact old_cotree_assign_unwind_balanced_partial. Qed.
+Theorem C14_old_cotree_assign_usable_after_refuted : ltac:(let t := type of old_cotree_assign_usable_after_refuted in exact t).
+Proof. exact old_cotree_assign_usable_after_refuted. Qed.
